@@ -152,6 +152,11 @@ pub fn explore(run: &WrRun) -> Outcome {
     };
     let mut sampled = false;
     while let Some(id) = queue.pop_front() {
+        let nviol: u64 = sigs.values().sum();
+        if nviol >= crate::rdsys::VIOLATION_BUDGET {
+            out.cov.caps_hit.push(format!("{}: exploration stopped after {} violations", cfg, nviol));
+            break;
+        }
         let depth = nodes[id as usize].depth as usize;
         let path = path_to(&nodes, id as usize);
         crate::watchdog::set_context(serde_json::to_string(&json!({"base": replay_doc(run.e, wbits, run.wrapper, "rec", "flush", &[]), "alphabet": []})).unwrap());
